@@ -483,4 +483,33 @@ theorem retargetRows_sound (src tgt : List Nat) (hno : src.all (fun b => !isLowe
     rw [hm, hl]
     exact unflatten_flatten _
 
+/-! ### codes wider than a byte (text handed over as int16 … int64 code arrays) -/
+
+/-- **C06.wide_code_rejected** — the lookup is by the code itself: a code that does not fit a byte is refused whatever
+its low byte is (the table has exactly 256 entries, generated and checked every run by `tableOK`). A lookup that wraps
+the code modulo 256 (seeded change C06-x3: `np.take(..., mode='wrap')`) accepts `256 + 'A'` as `A`; the model and
+this theorem do not. -/
+theorem wide_code_rejected (E : Enc) (h : tableOK E = true) (b : Nat) (hb : 256 ≤ b) : encByte E b = none := by
+  unfold tableOK at h
+  simp only [Bool.and_eq_true, beq_iff_eq] at h
+  have hlen : E.encT.length = 256 := h.1.1.1.1
+  unfold encByte
+  rw [List.getElem?_eq_none (by omega)]
+  rfl
+
+/-- **C06.wide_text_rejected** — a text holding any code ≥ 256 is refused as a whole -/
+theorem wide_text_rejected (E : Enc) (h : tableOK E = true) (s : Bytes) (hs : ∃ b ∈ s, 256 ≤ b) : encode E s = none := by
+  obtain ⟨b, hb, hge⟩ := hs
+  unfold encode
+  cases hm : omap (encByte E) s with
+  | none => rfl
+  | some r =>
+    have := (omap_isSome_iff (encByte E) s).mp (by rw [hm]; rfl) b hb
+    rw [wide_code_rejected E h b hge] at this
+    simp at this
+
+/-- non-vacuity on a generated table: `256 + 'A'` (321) in the middle of `GA?TACA` -/
+example : tableOK Gen.C06.ACGTEncoding = true ∧ encode Gen.C06.ACGTEncoding [71, 65, 321, 84, 65, 67, 65] = none ∧
+    encode Gen.C06.ACGTEncoding [71, 65, 65, 84, 65, 67, 65] = some [2, 0, 0, 3, 0, 1, 0] := by decide +kernel
+
 end C06
